@@ -843,20 +843,16 @@ Section StepMp2.
             cbn; rewrite app_nil_r; split; auto.
         * rewrite Hk. cbn. rewrite app_nil_r, A. split; auto.
     - (* OInsert *)
-      destruct (match loc with
-                | BEnd => Some LEnd | BIndex i => Some (LIndex i) | BFromBack i => Some (LFromBack i)
-                | BAfter r => match b_target (get_bar s r) with TMulti i => Some (LAfter i) | _ => None end
-                | BBefore r => match b_target (get_bar s r) with TMulti i => Some (LBefore i) | _ => None end
-                end) as [l|]; [|apply StepMp_nil; reflexivity].
-      destruct (ms_insert (s_mp s) l) as [[m1 idx]|] eqn:Hi; [|apply StepMp_nil; reflexivity].
-      cbn [fst]. unfold bar_set_target. change (get_bar (set_s_mp s m1) b) with (get_bar s b).
-      cbn [s_mp set_s_mp s_calls].
-      destruct (b_target (get_bar s b)) as [|tg|idx0] eqn:Ht.
-      + unfold StepMp. cbn [MultiSpec.mp_run mp_exec1]. rewrite Hi. cbn. auto.
-      + unfold StepMp. cbn [MultiSpec.mp_run mp_exec1]. rewrite Hi. cbn. auto.
-      + unfold StepMp. cbn [MultiSpec.mp_run mp_exec1]. rewrite Hi.
-        destruct (ms_draw W H fails (ms_store m1 idx0 [] []) true None now (s_calls s)) as [[[m2 e] c'] ok].
-        cbn. rewrite app_nil_r. auto.
+      destruct (b_target (get_bar s b)) as [|tg|idx0] eqn:Ht; [| |apply StepMp_nil; reflexivity];
+        (destruct (match loc with
+                   | BEnd => Some LEnd | BIndex i => Some (LIndex i) | BFromBack i => Some (LFromBack i)
+                   | BAfter r => match b_target (get_bar s r) with TMulti i => Some (LAfter i) | _ => None end
+                   | BBefore r => match b_target (get_bar s r) with TMulti i => Some (LBefore i) | _ => None end
+                   end) as [l|]; [|apply StepMp_nil; reflexivity];
+         destruct (ms_insert (s_mp s) l) as [[m1 idx]|] eqn:Hi; [|apply StepMp_nil; reflexivity];
+         cbn [fst]; unfold bar_set_target; change (get_bar (set_s_mp s m1) b) with (get_bar s b);
+         cbn [s_mp set_s_mp s_calls]; rewrite Ht;
+         unfold StepMp; cbn [MultiSpec.mp_run mp_exec1]; rewrite Hi; cbn; auto).
     - (* ORemove *)
       destruct (b_target (get_bar s b)) as [|tg|idx] eqn:Ht; try (apply StepMp_nil; reflexivity).
       unfold StepMp. cbn [MultiSpec.mp_run mp_exec1 s_mp upd_bar set_s_bars s_calls].
@@ -1267,15 +1263,28 @@ Definition loc_of (s : sys) (bl : bloc) : option iloc :=
 Lemma is_member_target s b : is_member s b = true -> exists i, b_target (get_bar s b) = TMulti i.
 Proof. unfold is_member. destruct (b_target (get_bar s b)); try discriminate. eauto. Qed.
 
+(** [a_ins] for a bar that is not in the list yet *)
+Definition a_ins0 (loc : bloc) (b : N) (ord : list N) : list N :=
+  match loc with
+  | BEnd => ord ++ [b]
+  | BIndex p => insert_at ord (Nat.min (N.to_nat p) (length ord)) b
+  | BFromBack p => insert_at ord (length ord - N.to_nat p) b
+  | BAfter r => match posN r ord with Some p => insert_at ord (S p) b | None => ord end
+  | BBefore r => match posN r ord with Some p => insert_at ord p b | None => ord end
+  end.
+Lemma a_ins_fresh loc b ord : ~ In b ord -> a_ins loc b ord = a_ins0 loc b ord.
+Proof. intros Hn. unfold a_ins. rewrite (proj2 (memN_false b ord) Hn). destruct loc; reflexivity. Qed.
+Lemma a_ins_member loc b ord : In b ord -> a_ins loc b ord = ord.
+Proof. intros Hi. unfold a_ins. rewrite (proj2 (memN_In b ord) Hi). reflexivity. Qed.
+
 Lemma insert_sim s a bl b l m1 idx :
-  MInv s -> Refines s a -> op_ok s (OInsert bl b) = true ->
+  MInv s -> Refines s a -> op_ok s (OInsert bl b) = true -> is_member s b = false ->
   loc_of s bl = Some l -> ms_insert (s_mp s) l = Some (m1, idx) ->
   let s1 := upd_bar (set_s_mp s m1) b (fun x => set_b_target x (TMulti idx)) in
   MInv s1 /\ Refines s1 (a_struct a (OInsert bl b)).
 Proof.
-  intros MI RF Hk Hloc Hins s1. pose proof (MInv_core s MI) as CI.
-  unfold op_ok in Hk. cbn [op_bar] in Hk. apply andb_prop in Hk. destruct Hk as [Ha Hk].
-  apply andb_prop in Hk. destruct Hk as [Hnm Href]. apply negb_true_iff in Hnm.
+  intros MI RF Hk Hnm Hloc Hins s1. pose proof (MInv_core s MI) as CI.
+  unfold op_ok in Hk. cbn [op_bar] in Hk. apply andb_prop in Hk. destruct Hk as [Ha Href].
   pose proof (alive_inrange s b Ha) as Hl.
   destruct (ms_insert_spec (s_mp s) l m1 idx CI Hins) as (Hfresh & Hlins & CI1 & Hdef & Hmem & Hal & Hor & Hzl & Htg).
   assert (Hgb : get_bar s1 b = set_b_target (get_bar s b) (TMulti idx)).
@@ -1310,11 +1319,11 @@ Proof.
         unfold alive in A1. rewrite Hgo in A1, T1 by exact N1.
         apply Hfresh. eapply (mi_alive s MI); eauto.
       * unfold alive in A1, A2. rewrite Hgo in A1, A2, T1, T2 by assumption. eapply (mi_distinct s MI); eauto.
-  - destruct RF as [R1 R2 R3 R4 R5 R6]. cbn [a_struct].
+  - destruct RF as [R1 R2 R3 R4 R5 R6]. cbn [a_struct]. rewrite (a_ins_fresh bl b (a_order a) Hbo).
     assert (Hmap : map (slot_of s1) (a_order a) = map (slot_of s) (a_order a)).
     { apply map_ext_in. intros y Hy. apply Hsl. intros ->. tauto. }
-    assert (HaIn : forall y, In y (a_ins bl b (a_order a)) -> y = b \/ In y (a_order a)).
-    { intros y. destruct bl as [|p|p|r|r]; cbn [a_ins].
+    assert (HaIn : forall y, In y (a_ins0 bl b (a_order a)) -> y = b \/ In y (a_order a)).
+    { intros y. destruct bl as [|p|p|r|r]; cbn [a_ins0].
       - rewrite in_app_iff. cbn. intuition congruence.
       - rewrite insert_at_In. tauto.
       - rewrite insert_at_In. tauto.
@@ -1328,7 +1337,7 @@ Proof.
       intros y Hy He. eapply NoDup_map_inj; eauto. rewrite <- R1. apply (mi_nd_order s MI). }
     constructor; cbn [a_order a_dropped].
     + rewrite Hmp. destruct Hsb as (Hsb & _ & _).
-      destruct bl as [|p|p|r|r]; cbn [loc_of] in Hloc; cbn [a_ins].
+      destruct bl as [|p|p|r|r]; cbn [loc_of] in Hloc; cbn [a_ins0].
       * injection Hloc as <-. cbn [l_ins] in Hlins. injection Hlins as <-.
         rewrite map_app, Hmap, <- R1. cbn. rewrite Hsb. reflexivity.
       * injection Hloc as <-. cbn [l_ins] in Hlins. injection Hlins as <-.
@@ -1348,7 +1357,7 @@ Proof.
     + intros y Hy. apply HaIn in Hy. destruct Hy as [->|Hy]; [apply Hsb|].
       destruct (Hsl y) as (_ & -> & _); [intros ->; tauto | apply R2; exact Hy].
     + intros y Hay Hmy. destruct (N.eq_dec y b) as [->|Hn].
-      * destruct bl as [|p|p|r|r]; cbn [a_ins].
+      * destruct bl as [|p|p|r|r]; cbn [a_ins0].
         -- apply in_or_app. right. left. reflexivity.
         -- apply insert_at_In. auto.
         -- apply insert_at_In. auto.
@@ -1358,7 +1367,7 @@ Proof.
            destruct (Hpos r i Har Htr) as [_ Hrin]. destruct (posN_In r _ Hrin) as [q ->]. apply insert_at_In. auto.
       * destruct (Hsl y Hn) as (_ & Em & Ea). rewrite Ea in Hay. rewrite Em in Hmy.
         specialize (R3 y Hay Hmy).
-        destruct bl as [|p|p|r|r]; cbn [a_ins].
+        destruct bl as [|p|p|r|r]; cbn [a_ins0].
         -- apply in_or_app. auto.
         -- apply insert_at_In. auto.
         -- apply insert_at_In. auto.
@@ -1611,8 +1620,12 @@ Section Sim.
       + (* insert *)
         exists false. cbn [a_step a_maybe_reap].
         pose proof Hk as Hk'. unfold op_ok in Hk'. cbn [op_bar] in Hk'.
-        apply andb_prop in Hk'. destruct Hk' as [Ha Hk']. apply andb_prop in Hk'. destruct Hk' as [Hnm Href].
-        apply negb_true_iff in Hnm.
+        apply andb_prop in Hk'. destruct Hk' as [Ha Href].
+        destruct (is_member s b) eqn:Hnm.
+        { (* already a member: no effect (fix bee77c9) *)
+          unfold step_sys. cbn [step]. destruct (is_member_target s b Hnm) as [i0 Ht0]. rewrite Ht0. cbn [fst].
+          split; [exact MI|]. cbn [a_struct]. rewrite a_ins_member; [destruct a; exact RF|].
+          apply (rf_alive s a RF b Ha Hnm). }
         assert (Hloc : exists l, loc_of s loc = Some l /\
                   (forall r, (loc = BAfter r \/ loc = BBefore r) -> In (slot_of s r) (ms_order (s_mp s))
                              /\ (l = LAfter (slot_of s r) \/ l = LBefore (slot_of s r)))).
@@ -1635,8 +1648,8 @@ Section Sim.
            | destruct (Hrefs r (or_intror eq_refl)) as [Hin [Hl|Hl]]; subst l;
              cbn [ms_order set_ms_free set_ms_members]; destruct (posN_In _ _ Hin) as [q ->]; eexists; eexists; reflexivity ]). }
         destruct Hins as (m1 & idx & Hins).
-        pose proof (insert_sim s a loc b l m1 idx MI RF Hk Hloc Hins) as Hsim. cbn zeta in Hsim.
-        unfold step_sys. cbn [step]. fold (loc_of s loc). rewrite Hloc, Hins. cbn [fst].
+        pose proof (insert_sim s a loc b l m1 idx MI RF Hk Hnm Hloc Hins) as Hsim. cbn zeta in Hsim.
+        unfold step_sys. cbn [step]. fold (loc_of s loc). rewrite Hloc, Hins.
         unfold bar_set_target. change (get_bar (set_s_mp s m1) b) with (get_bar s b).
         unfold is_member in Hnm. destruct (b_target (get_bar s b)); try discriminate Hnm; cbn [fst]; exact Hsim.
       + (* remove *)
